@@ -17,5 +17,6 @@ ASSUMPTIONS = ["argparse, ChainMap and ConfigParser semantics (trusted stdlib)"]
 
 def run(project, rep):
     rep.run(G.g_rules, project, rep)
+    rep.run(G.g_r8_flags_reach_client, project, rep)
     from .. import rules_values as V
     rep.run(V.v_r8_token_tables, project, rep, modules_prefix=("ofxtools.scripts.ofxget",))
